@@ -343,6 +343,56 @@ def rule_update_resets(ctx):
     return r
 
 
+def rule_scan_stops_with_cause(ctx):
+    r = RuleResult('MUST-scan-complete', 'an expiry scan stops at a front node it does not remove only after establishing, on THAT node\'s own timestamp of the scanned '
+                   'queue, that the node is alive: deadline not reached (or the duration is not configured) and, in the concurrent cache, not older than the '
+                   'invalidate_all watermark (or no watermark) -- otherwise expired / invalidated entries stay in the map, counted and holding their key and value')
+    from .rules_live import literals_of, classify_literal, tag_none_facts, ts_kind
+    prog = ctx.prog
+    R = get_roles(ctx)
+    roles = [('unsync.scan_wo', 'wo', 'unsync'), ('unsync.scan_ao', 'ao', 'unsync')]
+    if ctx.has_sync:
+        roles += [('sync.scan_wo', 'wo', 'sync'), ('sync.scan_ao', 'ao', 'sync')]
+    n = 0
+    for key, kind, flavour in roles:
+        nid = named(ctx, key)
+        if nid not in prog.bodies:
+            raise CheckFailure('MUST-scan-complete: scan role %s not found' % key)
+        rm = (HASHMAP_REMOVE | DASHMAP_REMOVE)
+        for p in _run(ctx, nid, inline_depth=4, loop_visits=2, inline_pred=lambda n_, b_, d_: False if ('handle_remove' in n_ or 'try_skip' in n_) else None):
+            if any(e[0] == 'call' and e[1] in rm for e in p.events):
+                continue
+            front = [v for c, v in p.conds if isinstance(c, tuple) and c[0] == 'discr' and isinstance(c[1], tuple) and c[1] and c[1][0] == 'call' and c[1][1] in R.front]
+            if not front or front[-1] != 1:
+                continue
+            lits = literals_of(p.conds)
+            facts = [f for f in (classify_literal(t, v) for t, v in lits) if f]
+            nones = tag_none_facts(lits)
+            cfg = 'time_to_live' if kind == 'wo' else 'time_to_idle'
+            no_ts = any(ts_kind(x) == {kind} and not has_call(x, ('checked_add',)) for x in nones)
+            bsc = prog.bodies[nid]
+
+            def _dur_param(x):      # the duration handed in as a parameter (`time_to_idle: &Option<Duration>`)
+                while isinstance(x, tuple) and x and x[0] in ('payload',):
+                    x = x[1]
+                return isinstance(x, tuple) and x and x[0] == 'param' and x[1] <= bsc.argc and 'Option<std::time::Duration>' in bsc.local_ty(x[1])['s']
+            dl = any(f['what'] == 'deadline' and f['state'] == 'not-expired' and kind in f['ts'] for f in facts) or \
+                any((has_field(x, (cfg,)) or _dur_param(x)) and not has_call(x, ('checked_add',)) for x in nones) or no_ts
+            wm = flavour == 'unsync' or any(f['what'] == 'watermark' and f['state'] == 'valid' and kind in f['ts'] for f in facts) or \
+                any(has_field(x, ('valid_after',)) for x in nones) or no_ts
+            n += 1
+            r.instance(scan=nid, queue=kind, front_node_kept=True, deadline_not_reached_established=dl, not_invalidated_established=wm, ok=dl and wm)
+            if not (dl and wm):
+                what = 'its deadline is not reached' if not dl else 'it is not older than the invalidate_all watermark'
+                r.violate(nid, 'scan-stops-without-cause', 'deadline' if not dl else 'watermark', '%s stops at a front node without having established on the node\'s own %s timestamp that %s '
+                          '(facts on this path: %s): expired / invalidated entries behind the test are never released' % (
+                              nid, 'last-modified' if kind == 'wo' else 'last-accessed', what, [(f['what'], f['state'], sorted(f['ts'])) for f in facts][:4]),
+                          where=ctx.where(nid), path=[fmt(c)[:60] + ' == ' + str(v) for c, v in p.conds][:8],
+                          expected='break only when !(ts + d <= now) and !(ts < valid_after) for the front node')
+    r.require_floor(4 if not ctx.has_sync else 10, 'scan paths that keep the front node')
+    return r
+
+
 def _update_resets_for(kind, label):
     """The same analysis, reporting only the verdicts about one of the two timestamp stores (wo = last modified / ttl, ao = last accessed / tti)."""
     def rule(ctx):
@@ -567,8 +617,21 @@ def rule_must_expire(ctx):
         step = named(ctx, 'sync.evict_expired')
         leads = {x for x in prog.reachable_from([m]) if x not in (m, step) and prog.bodies[x].kind != 'closure' and step in prog.reachable_from([x])
                  and x.startswith('sync::')}
-        for p in _run(ctx, m, inline_depth=1 + min(len(leads), 3), loop_visits=2, inline_pred=lambda n_, b, d, _l=frozenset(leads): n_ in _l):
+        def _pol(n_, b_, d_, _l=frozenset(leads)):
+            if n_ in _l:
+                return True
+            # small side-effect-free predicates ("is there anything that can expire?") are part of the decision
+            # (and so are the plain getters they read the configuration through)
+            return bool(b_.kind != 'closure' and not b_.loops() and n_ != step and not any(e_[0] == 'write' for e_ in ctx.eff.transitive(n_)) and
+                        ((len(b_.blocks) <= 25 and b_.locals[0]['ty']['s'] == 'bool') or (len(b_.blocks) <= 4 and b_.argc == 1)))
+        for p in _run(ctx, m, inline_depth=3 + min(len(leads), 3), loop_visits=2, inline_pred=_pol):
             d = conf_lits(p)
+            if 'has_expiry' not in d:
+                # the predicate spelled out: some duration is configured
+                if d.get('time_to_live') is True or d.get('time_to_idle') is True:
+                    d['has_expiry'] = True
+                elif d.get('time_to_live') is False and d.get('time_to_idle') is False:
+                    d['has_expiry'] = False
             called = any(e[0] == 'call' and str(e[1]) == step for e in p.events)
             # a path may skip the expiry step only after establishing that neither expiry nor a watermark exists
             established_off = d.get('has_expiry') is False and d.get('has_valid_after') is False
@@ -585,7 +648,7 @@ def rule_must_expire(ctx):
         if nid not in prog.bodies:
             continue
         scans = {named(ctx, kind + '.scan_wo'), named(ctx, kind + '.scan_ao')}
-        for p in _run(ctx, nid, inline_depth=2, loop_visits=2, inline_pred=lambda n_, b, d, _s=scans: False if n_ in _s else None):
+        for p in _run(ctx, nid, inline_depth=4, loop_visits=2, inline_pred=lambda n_, b, d, _s=scans: False if n_ in _s else None):
             d = conf_lits(p)
             wo = sum(1 for e in p.events if e[0] == 'call' and str(e[1]) == named(ctx, kind + '.scan_wo'))
             ao = sum(1 for e in p.events if e[0] == 'call' and str(e[1]) == named(ctx, kind + '.scan_ao'))
